@@ -38,7 +38,7 @@ ASSUMPTIONS = [
 BUDGET = {"quick": 45, "thorough": 420}
 NCASES = {"quick": 3000, "thorough": 60000}
 FLOORS = {"quick": {"case_held": 400, "nontrivial": 300}, "thorough": {"case_held": 8000, "nontrivial": 6000}}
-COVER_FLOORS = {"quick": {"kinds": ["variable", "nested", "second", "coefficient"]}, "thorough": {"kinds": ["variable", "nested", "second", "coefficient", "mixed-second"]}}
+COVER_FLOORS = {"quick": {"kinds": ["variable", "nested", "second", "coefficient", "coef-and-variable"]}, "thorough": {"kinds": ["variable", "nested", "second", "coefficient", "mixed-second", "coef-and-variable"]}}
 CELLS = [("interval", 1), ("triangle", 2), ("triangle", 2), ("triangle", 3), ("tetrahedron", 3)]
 VSHAPES = [(), (), (2,), (3,), (2, 2), (2, 3)]
 
@@ -75,11 +75,17 @@ def case(ctx, i, rng):
     cell, gdim = rng.choice(CELLS)
     cplx = rng.random() < 0.25
     U = Universe(rng, cell, gdim, "cell", cplx)
-    kind = rng.choice(["variable", "variable", "nested", "second", "coefficient", "mixed-second"])
+    kind = rng.choice(["variable", "variable", "nested", "second", "coefficient", "mixed-second", "coef-and-variable"])
     mk = lambda **kw: Gen(U, rng, cplx=cplx, deriv=rng.choice([0, 1]), cond=rng.random() < 0.3, math=rng.random() < 0.8, geom=rng.random() < 0.4, **kw)
     try:
         G1 = mk()
         s1 = rng.choice(VSHAPES)
+        if kind == "coef-and-variable":
+            # a coefficient and a variable of the same shape whose numbers (coefficient count / label count)
+            # coincide, both differentiated with respect to in ONE expansion
+            names = [n for n in U.spaces if U.spaces[n].ufl_element().pullback.is_identity]
+            cname = rng.choice(names)
+            s1 = tuple(U.spaces[cname].value_shape)
         v1 = ufl.variable(G1.expr(s1, rng.choice([0, 1, 2])))
         vs = [v1]
         if kind in ("nested", "mixed-second"):
@@ -92,7 +98,20 @@ def case(ctx, i, rng):
         Gf.extra = list(vs)
         Gf.extra_prob = 0.6
         fshape = rng.choice([(), (), (2,), (gdim,), (2, 2)])
-        if kind == "coefficient":
+        if kind == "coef-and-variable":
+            u = ufl.Coefficient(U.spaces[cname], count=v1.ufl_operands[1].count())
+            Gf.extra = [u, v1]
+            Gf.extra_prob = 0.7
+            f = Gf.expr(fshape, rng.choice([2, 3]))
+            target = v1
+            r = rng.random()
+            if r < 0.4:
+                e = ufl.diff(f, u) + 2 * ufl.diff(f, v1)
+            elif r < 0.7:
+                e = ufl.diff(ufl.diff(f, u), v1)
+            else:
+                e = ufl.diff(ufl.diff(f, v1), u)
+        elif kind == "coefficient":
             names = [n for n in U.spaces if U.spaces[n].ufl_element().pullback.is_identity]
             u = U.coef(rng.choice(names), 0)
             Gf.extra = [u]
